@@ -216,12 +216,42 @@ class _RAW(Walker):
         return (state,)
 
 
-RAISERS = {"get_conversion_factor", "_get_conversion_factor", "_validate_units_consistency", "_validate_units_consistency_v2", "Unit", "to", "in_units", "_sanitize_units_convert", "_check_em_conversion", "_em_conversion", "get_base_equivalent", "convert_to_units", "convert_to_equivalent", "_coerce_iterable_units"}
+_LISTED_RAISERS = {"get_conversion_factor", "_get_conversion_factor", "_validate_units_consistency", "_validate_units_consistency_v2", "Unit", "to", "in_units", "_sanitize_units_convert", "_check_em_conversion", "_em_conversion", "get_base_equivalent", "convert_to_units", "convert_to_equivalent", "_coerce_iterable_units"}
+
+RAISERS = set(_LISTED_RAISERS)
+
+
+def derived_raisers(repo):
+    """module-level functions of unyt/array.py whose body contains a raise statement (directly, or through another
+    such function): calling one of them after the target has been written is a refusal after the write.  Derived from
+    the source so that a helper which starts to refuse (or a refusing helper that is moved behind the evaluation) is
+    seen without being listed by hand."""
+    arr = repo.mod(ARR)
+    direct = set()
+    calls = {}
+    for q, fns in arr.funcs.items():
+        if "." in q:
+            continue
+        for f in fns:
+            if any(isinstance(n, ast.Raise) for n in walk_no_nested(f.node)):
+                direct.add(q)
+            calls.setdefault(q, set()).update(norm(c.func) for c in walk_no_nested(f.node) if isinstance(c, ast.Call) and isinstance(c.func, ast.Name))
+    changed = True
+    while changed:
+        changed = False
+        for q, cs in calls.items():
+            if q not in direct and cs & direct:
+                direct.add(q)
+                changed = True
+    return direct
 
 
 def raise_after_write(repo, res):
     r2 = res.rule("C18-R2", "in-place API: no raise / raising validator reachable after the target has been written", floor=20)
     arr = repo.mod(ARR)
+    global RAISERS
+    RAISERS = set(_LISTED_RAISERS) | derived_raisers(repo)
+    res.note(f"may-raise helpers derived from the source: {sorted(RAISERS - set(_LISTED_RAISERS))}")
 
     def run(fn, targets, key, accepted_nodes=(), accepted_raisers=(), roots=None, extra_alias=None, raisers=None):
         res.fn(fn)
@@ -385,6 +415,7 @@ def inplace_twin(repo, res):
 
 
 MUTANTS = [
+    Mutant("result-class-looked-up-after-evaluation", ARR, "unyt_array.__array_ufunc__", "            ret_class = _get_binary_op_return_class(type(i0), type(i1))\n", "", ("C18-R2",), more=[(ARR, "unyt_array.__array_ufunc__", "            if unit_operator in (_multiply_units, _divide_units):\n                if unit.is_dimensionless and unit.base_value != 1.0:", "            ret_class = _get_binary_op_return_class(type(i0), type(i1))\n            if unit_operator in (_multiply_units, _divide_units):\n                if unit.is_dimensionless and unit.base_value != 1.0:", 1)]),
     Mutant("in_units-inplace-multiply", ARR, "unyt_array.in_units", "ret = np.asarray(self.ndview * conversion_factor, dtype=new_dtype)", "ret = self.ndview\n            ret *= conversion_factor", ("C18-R1",)),
     Mutant("in_units-subtract-into-view", ARR, "unyt_array.in_units", "np.subtract(ret, offset, ret)", "np.subtract(ret, offset, self.ndview)", ("C18-R1",)),
     Mutant("in_base-units-assigned", ARR, "unyt_array.in_base", "        return type(self)(ret, to_units)", "        self.units = to_units\n        return type(self)(ret, to_units)", ("C18-R1",)),
